@@ -17,6 +17,11 @@ func New(r bufio.Reader) LexerReader {
 	content, _ := io.ReadAll(&r)
 	runes := []rune(string(content))
 
+	// a last line without line terminator is analysed like a terminated one
+	if len(runes) > 0 && runes[len(runes)-1] != '\n' {
+		runes = append(runes, '\n')
+	}
+
 	return LexerReader{
 		runes:    runes,
 		pos:      0,
